@@ -20,6 +20,8 @@ import Golib.Proof.C11Classic
 import Golib.Proof.C11Init
 import Golib.Proof.C11Plain
 import Golib.Proof.C11Driver
+import Golib.Proof.C11Len2
+import Golib.Findings.C11TwoCounter
 
 namespace Golib.C11
 
@@ -258,6 +260,90 @@ theorem c11_len_abstract (vals : List Int) (progs : List (List Call)) (σ : List
   refine ⟨stored s, replay_lins vals progs σ, rfl, by omega, by omega, fun i n hr => ?_⟩
   have := (ret_len (g := ginit vals progs) hr).1
   omega
+
+/-- `c11_len_call_interval`: the Len clause for `Len()` CALLS that overlap other operations,
+in the form the Go oracle applies to recorded histories (`checkLenCalls`).  Take any run, any
+window `σ₂` of it (starting in the state reached by `σ₁`) at whose end thread `i` returns `n`
+from `Len()` — in particular the window that starts when thread `i` arrives in front of the
+call's only access, however long it is parked there while other threads complete whole
+`Push`/`Pop` calls.  Then `n` is allowed by `LenCallOK` for the poppable counts at the instants
+of the window (`0 ≤ n`, and `n ≥` the number of values that can be popped at SOME instant of the
+call, i.e. `n` is not below the minimum over the call), BECAUSE `Len()` is one atomic load:
+`n` is the counter at the window's last instant, where `poppable ≤ len`.  (`poppable` =
+`tail - head` of the published pointers = `|stored|`, last clause.)  A `Len()` composed of
+SEVERAL loads has no such instant: see `c11_len_two_counter`. -/
+theorem c11_len_call_interval (vals : List Int) (progs : List (List Call)) (σ₁ σ₂ : List Nat)
+    (i : Nat) (n : Int) :
+    let s₁ := (run .addThenStore (init vals progs) σ₁).1
+    let s₂ := (run .addThenStore s₁ σ₂).1
+    (step .addThenStore s₂ i).2.ret = some (.len n) →
+      LenCallOK (poppableAlong s₁ (σ₂ ++ [i])) n ∧ n = s₂.len ∧ (poppable s₂ : Int) ≤ n ∧
+        poppable s₂ = (stored s₂).length := by
+  intro s₁ s₂ hr
+  have hI : Inv s₂ := inv_run (inv_run (inv_init vals progs) σ₁) σ₂
+  obtain ⟨h1, h2⟩ := len_call_interval (inv_init vals progs) σ₁ σ₂ i n hr
+  have hp := poppable_le_len hI
+  exact ⟨h1, h2, by rw [h2]; exact hp.1, (stored_length hI).symm⟩
+
+/-- Non-vacuity of `c11_len_call_interval`: thread 0 is parked in front of its `Len()` while
+thread 1 completes a `Push` and a `Pop` on a pre-filled list (12 steps), then loads: `len 1`;
+the poppable count was 1 or 2 throughout. -/
+example :
+    let s₁ := init [4] [[.len], [.push 7, .pop]]
+    let s₂ := (run .addThenStore s₁ (List.replicate 12 1)).1
+    (step .addThenStore s₂ 0).2.ret = some (.len 1) ∧
+    poppableAlong s₁ (List.replicate 12 1 ++ [0]) = [1, 1, 1, 1, 1, 2, 2, 2, 2, 1, 1, 1, 1, 1] := by
+  decide
+
+/-- `c11_len_two_counter`: the class "`Len()` composed of several atomic loads whose order
+matters" (seeded change C11-K), on the design variant of `Golib/Model/C11Len2.lean`: the real
+`Push`/`Pop`/`PopWait` with two monotonic counters `pushed`/`popped` updated where the code
+updates `len`, and `Len()` = TWO loads with a preemption point between them, returning
+`int(pushed - popped)`.
+ 1. For every schedule the variant's `Push`/`Pop` part IS the real machine (`Inv`, so all
+    structural theorems apply) and the real counter is `pushed - popped`.
+ 2. `popped` loaded FIRST: the Len clause for calls (`LenCallSpec2`: thread `i` in front of the
+    first load, still in the call during the window, returning `n` ⇒ `LenCallOK` for the
+    poppable counts of the call's instants) holds on EVERY schedule — the result is
+    `pushed(t₂) - popped(t₁) ≥ len(t₂) ≥ poppable(t₂)` since `popped` only grows.
+ 3. `pushed` loaded FIRST (what C11-K does): the clause is FALSE — explicit schedule in
+    `Golib/Findings/C11TwoCounter.lean`: on a list holding one value, a complete `Push`+`Pop`
+    pair between the two loads makes `Len()` return 0 while 1 or 2 values can be popped at every
+    instant of the call; on an empty list it returns -1.
+ 4. Either order is exact when no other operation is in flight (the order only matters under
+    concurrency — which is why no sequential test and no sample taken between steps sees it). -/
+theorem c11_len_two_counter :
+    (∀ (lo : LenOrder) (vals : List Int) (progs : List (List Call)) (σ : List Nat),
+      let L := (run2 lo (init2 vals progs) σ).1
+      Inv L.s ∧ L.s.len = (L.pushed : Int) - L.popped ∧ (poppable L.s : Int) ≤ L.s.len) ∧
+    LenCallSpec2 .poppedFirst ∧
+    ¬ LenCallSpec2 .pushedFirst ∧
+    (∀ (lo : LenOrder) (vals : List Int) (progs : List (List Call)) (σ : List Nat) (i : Nat),
+      let L := (run2 lo (init2 vals progs) σ).1
+      atLen L.s i = true → L.loc[i]? = some none →
+      (∀ j b, j ≠ i → L.s.threads[j]? = some b → b.pc = .idle) →
+      (run2 lo L [i, i]).2.map (·.ret) = [none, some (.len (poppable L.s))]) := by
+  refine ⟨fun lo vals progs σ => ?_, lenCallSpec2_poppedFirst, Findings.k_refutes_pushed_first,
+    fun lo vals progs σ i => ?_⟩
+  · have h := inv2_run (inv2_init lo vals progs) σ
+    exact ⟨h.inv, h.diff, (poppable_le_len h.inv).1⟩
+  · intro L hat hloc hidle
+    exact len2_quiescent (inv2_run (inv2_init lo vals progs) σ) hat hloc hidle
+
+/-- Non-vacuity of `c11_len_two_counter`: the witness window satisfies the hypotheses of
+`LenCallSpec2` in both orders (thread 0 in front of the first load of `Len()`, no return of
+thread 0 during the window); `pushed` first returns 0 (not allowed: poppable counts 1, 2),
+`popped` first returns 2 (allowed); and a quiescent `Len()` on a list of two values. -/
+example :
+    let L₀ := init2 [4] Findings.kProgs
+    atLen L₀.s 0 = true ∧ L₀.loc[0]? = some none ∧
+    ((run2 .pushedFirst L₀ Findings.kWindow).2.filter fun e => e.tid == 0 && e.ret.isSome) = [] ∧
+    (step2 .pushedFirst (run2 .pushedFirst L₀ Findings.kWindow).1 0).2.ret = some (.len 0) ∧
+    (step2 .poppedFirst (run2 .poppedFirst L₀ Findings.kWindow).1 0).2.ret = some (.len 2) ∧
+    ¬ LenCallOK (poppableAlong2 .pushedFirst L₀ (Findings.kWindow ++ [0])) 0 ∧
+    LenCallOK (poppableAlong2 .poppedFirst L₀ (Findings.kWindow ++ [0])) 2 ∧
+    (run2 .pushedFirst (init2 [4, 5] [[.len]]) [0, 0]).2.map (·.ret) = [none, some (.len 2)] := by
+  decide
 
 /-- `c11_linearizable_classical`: linearizability as it is usually defined.  For every finite
 run let `H = chist (trace …)` be its history (linearization markers and responses; invocation
